@@ -445,6 +445,9 @@ def blur_correspondence(ctx):
             continue
         if inp['kind'] == 'ramp':
             inp['scale'], inp['offset'] = 1.0, 0.0
+        if (inp['h'], inp['w']) == (1, 1) and len(cases) < len(fixed):
+            # a one-level chain whose only pixel has LOD >= 1 (the coarsest level must take it)
+            inp.update({'equi': False, 'alpha': 1.0, 'gaze': [1.0, 1.0], 'rw': 1.0, 'rd': 0.3, 'mode': 'quadratic', 'kind': 'const', 'value': 0.5})
         cases.append(inp)
     shapes = sorted({(c['h'], c['w']) for c in cases})
     vals = ctx.coq_eval(PRE + 'Import Blur. Open Scope Z_scope.', ['mip_sizes %d %d' % s for s in shapes], label='mipsizes', chunk=100)
